@@ -447,7 +447,7 @@ pub fn deviations(schema: &SchemaModel, q: &Query, cfg: &GenCfg) -> Vec<Query> {
         for v in vars.iter().filter(|v| !v.ends_with("_ty")) {
             for ni in infos.iter() {
                 let node = node_at(q, &ni.path);
-                for (prop, op) in [("n", "="), ("id", "="), ("n", ">"), ("s", "="), ("n", "one_of"), ("l", "contains")] {
+                for (prop, op) in [("n", "="), ("id", "="), ("n", ">"), ("s", "="), ("n", "one_of"), ("id", "one_of"), ("id", "not_one_of"), ("l", "contains"), ("ll", "contains")] {
                     if prop_type(schema, &ni.ty, prop).is_none() {
                         continue;
                     }
